@@ -88,6 +88,7 @@ type rootInfo struct {
 	Root   common.Hash
 	Ref    *refState
 	Commit int
+	Adb    *account.AccountDB // the state object that executed and committed the block ("readable before the commit")
 }
 
 type seqRun struct {
@@ -373,10 +374,12 @@ type durCtx struct {
 	bad  int
 }
 
-// mismatch: cold differs from the reference. If a warm read of the same root in
-// the live process agrees with the cold one, the root itself encodes something
-// else than the reference expects — not a durability matter (reported as
-// inconclusive so that it is seen, never as a C03 violation).
+// mismatch: cold differs from the reference. The property compares with what was
+// readable before the commit, i.e. with the state object that executed the block:
+// if that object (still alive, read again now) agrees with the cold read, the
+// executing process itself never saw the reference value — the reference model is
+// off, which is not a durability matter (reported as inconclusive so that it is
+// seen, never as a C03 violation).
 func (d *durCtx) mismatch(kind, what string, coldV, refV []byte, warmV func() []byte) {
 	d.bad++
 	if d.bad > 5 {
@@ -394,11 +397,11 @@ func (d *durCtx) mismatch(kind, what string, coldV, refV []byte, warmV func() []
 		if d.s.r.Get("model_divergence") > 8 {
 			return
 		}
-		d.s.r.Inconclusive("reference model and root %s disagree on %s (%s): root has %x, reference %x; cold and warm reads agree, so this is not a durability failure [variant=%s seq=%d commit=%d]",
+		d.s.r.Inconclusive("reference model and root %s disagree on %s (%s): root has %x, reference %x; the committing state object reads the same as the cold store, so this is not a durability failure [variant=%s seq=%d commit=%d]",
 			d.ri.Root.Hex(), kind, what, trunc(coldV), trunc(refV), d.s.variant, d.s.idx, d.w.Commit)
 		return
 	}
-	d.s.vio("C03:durability:"+kind, fmt.Sprintf("root %s reported committed; cold reopen from the written units: %s reads %x, written value %x (live process reads %x)",
+	d.s.vio("C03:durability:"+kind, fmt.Sprintf("root %s reported committed; cold reopen from the written units: %s reads %x, written value %x (the committing state object reads %x)",
 		d.ri.Root.Hex(), what, trunc(coldV), trunc(refV), trunc(wv)), d.s.wit(w))
 }
 
@@ -446,8 +449,8 @@ func (s *seqRun) checkDurable(ri rootInfo, phase string) {
 		s.vio("C03:durability:root-not-openable", fmt.Sprintf("commit %d reported success for root %s; cold open fails: %v (%s)", ri.Commit, ri.Root.Hex(), err, phase), s.wit(w))
 		return
 	}
-	var warm *account.AccountDB
-	if s.sdb != nil {
+	warm := ri.Adb
+	if warm == nil && s.sdb != nil {
 		warm, _ = account.NewAccountDB(ri.Root, s.sdb)
 	}
 	d := &durCtx{s: s, ri: ri, cold: cold, warm: warm, w: w}
@@ -853,7 +856,7 @@ func (s *seqRun) commitBlock(parentRoot common.Hash, ops []Op, post *refState, k
 		}
 		r.Count("commits_reported_ok", 1)
 		r.Count("commit_kind_"+kind, 1)
-		ri := rootInfo{Root: root, Ref: post, Commit: cn}
+		ri := rootInfo{Root: root, Ref: post, Commit: cn, Adb: adb}
 		s.committed = append(s.committed, ri)
 		if s.onOK != nil {
 			s.onOK(ri)
